@@ -34,6 +34,8 @@ def run(repo: Repo, tier: str, res: CheckResult, seed: int = 0) -> None:
     same_cases(repo, m, res)
     flag_exact(repo, m, res)
     exact_value_loader(repo, m, res)
+    flag_list_dumper(repo, m, res)
+    flag_list_loader(repo, m, res)
     res.assumptions = list(ASSUMPTIONS)
 
 
@@ -112,6 +114,61 @@ def partial_calls(repo: Repo, m: ModuleInfo, res: CheckResult) -> None:
     res.evaluated("partial:fixture", True)
 
 
+def _mapping_source(ci: ClassInfo, m: ModuleInfo, e: ast.expr, param: str, res: CheckResult, where: str) -> Optional[str]:
+    """`self._generate_mapping(<param>)` directly, or through a helper method that returns exactly that mapping (possibly
+    memoised); returns the name of the helper ('' for the direct call) or None when the expression is something else"""
+    if not (isinstance(e, ast.Call) and isinstance(e.func, ast.Attribute) and norm(e.func.value) == "self" and len(e.args) == 1
+            and not e.keywords and norm(e.args[0]) == param):
+        return None
+    name = e.func.attr
+    if name == "_generate_mapping":
+        return ""
+    helper = ci.methods.get(name)
+    if helper is None:
+        return None
+    hp = [a.arg for a in helper.args.args if a.arg != "self"]
+    if len(hp) != 1:
+        return None
+    # names that denote the parameter's cases (the parameter or a tuple/list copy of it)
+    same = {hp[0]}
+    for n in ast.walk(helper):
+        if isinstance(n, ast.Assign) and isinstance(n.targets[0], ast.Name) and (
+                norm(n.value) in same or (isinstance(n.value, ast.Call) and norm(n.value.func) in ("tuple", "list")
+                                          and n.value.args and norm(n.value.args[0]) in same)):
+            same.add(n.targets[0].id)
+    gen_calls = [c for c in ast.walk(helper) if isinstance(c, ast.Call) and norm(c.func) == "self._generate_mapping"]
+    if not gen_calls or any(len(c.args) != 1 or norm(c.args[0]) not in same for c in gen_calls):
+        return None
+    # memo: stores of the generated mapping into an attribute container, keyed by ...
+    holders = {}
+    for n in ast.walk(helper):
+        if isinstance(n, ast.Assign):
+            for t in n.targets:
+                if isinstance(t, ast.Subscript) and norm(t.value).startswith("self."):
+                    holders[norm(t.value)] = t.slice
+    mapping_names = {norm(t) for n in ast.walk(helper) if isinstance(n, ast.Assign) and any(n.value is c for c in gen_calls)
+                     for t in n.targets if isinstance(t, ast.Name)}
+    for r in [x for x in ast.walk(helper) if isinstance(x, ast.Return) and x.value is not None]:
+        v = r.value
+        ok = any(v is c for c in gen_calls) or norm(v) in mapping_names or (
+            isinstance(v, ast.Subscript) and norm(v.value) in holders)
+        if not ok:
+            return None
+    for holder, key in holders.items():
+        res.evaluated(f"inverse:memo-key:{holder}", True)
+        ktxt = norm(key)
+        kdef = ktxt
+        for n in ast.walk(helper):
+            if isinstance(n, ast.Assign) and any(norm(t) == ktxt for t in n.targets):
+                kdef = norm(n.value)
+        if not any(tok in kdef for tok in ("type(", "id(", "__class__")):
+            res.add(Finding("C18", "INVERSE.memo-key-by-value", m.rel, f"{ci.name}.{name}", f"{holder}[{ktxt}] with {ktxt} = {kdef}",
+                            f"the mapping memo `{holder}` is keyed by `{kdef}`: members of int/str mixed-in enums compare and hash "
+                            "by value, so two different classes with equal member values share one entry and the second class is "
+                            "dumped and loaded with the first one's table", helper.lineno))
+    return name
+
+
 def inversion(repo: Repo, m: ModuleInfo, res: CheckResult) -> None:
     ci = m.classes.get("BaseEnumMappingGenerator")
     if ci is None:
@@ -123,7 +180,8 @@ def inversion(repo: Repo, m: ModuleInfo, res: CheckResult) -> None:
     res.evaluated("inverse:generate_for_dumping", True)
     rets = [r for r in ast.walk(fd) if isinstance(r, ast.Return) and r.value is not None]
     cases_param = fd.args.args[1].arg
-    if not (len(rets) == 1 and norm(rets[0].value) == f"self._generate_mapping({cases_param})"):
+    src_d = _mapping_source(ci, m, rets[0].value, cases_param, res, "dumping") if len(rets) == 1 else None
+    if src_d is None:
         res.add(Finding("C18", "INVERSE.dumping-mapping", m.rel, "BaseEnumMappingGenerator.generate_for_dumping",
                         "; ".join(norm(r) for r in rets), "generate_for_dumping must return _generate_mapping(cases) "
                         "unchanged (the loader inverts exactly this mapping)", fd.lineno))
@@ -131,18 +189,24 @@ def inversion(repo: Repo, m: ModuleInfo, res: CheckResult) -> None:
     rets = [r for r in ast.walk(fl) if isinstance(r, ast.Return) and r.value is not None]
     ok = False
     lparam = fl.args.args[1].arg
+    src_l = None
     if len(rets) == 1 and isinstance(rets[0].value, ast.DictComp):
         dc = rets[0].value
         g = dc.generators[0]
         if isinstance(g.target, ast.Tuple) and len(g.target.elts) == 2 and not g.ifs and len(dc.generators) == 1 \
-                and norm(g.iter) == f"self._generate_mapping({lparam}).items()":
+                and isinstance(g.iter, ast.Call) and isinstance(g.iter.func, ast.Attribute) and g.iter.func.attr == "items" \
+                and not g.iter.args:
+            src_l = _mapping_source(ci, m, g.iter.func.value, lparam, res, "loading")
             k, v = norm(g.target.elts[0]), norm(g.target.elts[1])
-            ok = norm(dc.key) == v and norm(dc.value) == k
+            ok = src_l is not None and norm(dc.key) == v and norm(dc.value) == k
     if not ok:
         res.add(Finding("C18", "INVERSE.loading-mapping", m.rel, "BaseEnumMappingGenerator.generate_for_loading",
                         "; ".join(norm(r) for r in rets)[:160],
                         "generate_for_loading must be the exact key/value inversion of _generate_mapping(cases) over all "
                         "items (no filtering, no transformation): otherwise load(dump(member)) is not member", fl.lineno))
+    elif src_d is not None and src_l != src_d:
+        res.add(Finding("C18", "INVERSE.different-sources", m.rel, "BaseEnumMappingGenerator", f"{src_l!r} vs {src_d!r}",
+                        "loading and dumping tables come from different mapping sources", fl.lineno))
     # both are @final: subclasses customise only _generate_mapping
     for f in (fl, fd):
         if not any(norm(d) in ("final", "typing.final") for d in f.decorator_list):
@@ -279,9 +343,276 @@ def exact_value_loader(repo: Repo, m: ModuleInfo, res: CheckResult) -> None:
     res.evaluated("enum-exact:tables", True)
     if gv is None or md is None:
         raise AnalysisError("anchor vanished: EnumExactValueProvider tables")
-    t1 = [norm(n) for n in ast.walk(gv) if isinstance(n, ast.DictComp)]
-    t2 = [norm(n) for n in ast.walk(md) if isinstance(n, ast.DictComp)]
-    if not t1 or not t2 or "member.value: member" not in t1[0] or "member: member.value" not in t2[0]:
-        res.add(Finding("C18", "ENUM.tables", m.rel, "EnumExactValueProvider", f"{t1} / {t2}",
-                        "value->member and member->value tables must be inverse comprehensions over the same enum",
-                        ci.node.lineno))
+    t1 = [comp_table(n) for n in ast.walk(gv) if isinstance(n, ast.DictComp)]
+    t2 = [comp_table(n) for n in ast.walk(md) if isinstance(n, ast.DictComp)]
+    enum_l, enum_d = _enum_param(gv), _enum_param(md)
+    ok = len(t1) == 1 and len(t2) == 1 and t1[0] is not None and t2[0] is not None
+    if ok:
+        (k1, v1, s1), (k2, v2, s2) = t1[0], t2[0]
+        # loader table: value -> member; dumper table: member -> value; both over every member of the class itself
+        ok = (k1, v1) == ("_x.value", "_x") and (k2, v2) == ("_x", "_x.value") and s1 == enum_l and s2 == enum_d
+        # the loader must return this very table
+        rets = [r for r in walk_no_nested(gv) if isinstance(r, ast.Return) and r.value is not None and norm(r.value) != "None"]
+        tbl_names = {norm(a.targets[0]) for a in ast.walk(gv) if isinstance(a, ast.Assign) and isinstance(a.value, ast.DictComp)}
+        if not rets or any(norm(r.value) not in tbl_names for r in rets):
+            ok = False
+    if not ok:
+        res.add(Finding("C18", "ENUM.tables", m.rel, "EnumExactValueProvider", f"{t1} / {t2}"[:200],
+                        "the loader's value->member table and the dumper's member->value table must be inverse "
+                        "comprehensions over all members of the enum class itself (internal caches such as "
+                        "_value2member_map_ omit unhashable values)", ci.node.lineno))
+    # the dict-based loader is only correct when every value is hashable: building the table must be allowed to fail
+    # (TypeError -> None -> enum(data) fallback)
+    res.evaluated("enum-exact:unhashable-fallback", True)
+    tr = [t for t in ast.walk(gv) if isinstance(t, ast.Try) and any(isinstance(x, ast.DictComp) for b in t.body for x in ast.walk(b))]
+    fallback = any(h.type is not None and "TypeError" in norm(h.type) and any(isinstance(x, ast.Return) and (x.value is None or norm(x.value) == "None")
+                                                                          for x in h.body) for t in tr for h in t.handlers)
+    if not fallback:
+        res.add(Finding("C18", "ENUM.unhashable-fallback", m.rel, "EnumExactValueProvider._get_exact_value_to_member",
+                        "value table without TypeError fallback", "enums with unhashable member values cannot use the dict "
+                        "table: the TypeError of building it must select the enum(data) fallback", gv.lineno))
+
+
+class _Rename(ast.NodeTransformer):
+    def __init__(self, mapping: Dict[str, str]):
+        self.mapping = mapping
+
+    def visit_Name(self, node: ast.Name):
+        return ast.copy_location(ast.Name(id=self.mapping.get(node.id, node.id), ctx=node.ctx), node)
+
+
+def alpha(e: ast.AST, mapping: Dict[str, str]) -> str:
+    import copy
+    return norm(_Rename(mapping).visit(copy.deepcopy(e)))
+
+
+def comp_table(dc: ast.DictComp) -> Optional[Tuple[str, str, str]]:
+    """(key function, value function, source) of a one-generator dict comprehension, bound names alpha-normalised"""
+    if len(dc.generators) != 1 or dc.generators[0].ifs:
+        return None
+    g = dc.generators[0]
+    if isinstance(g.target, ast.Name):
+        mp = {g.target.id: "_x"}
+    elif isinstance(g.target, ast.Tuple) and all(isinstance(x, ast.Name) for x in g.target.elts):
+        mp = {x.id: f"_x{i}" for i, x in enumerate(g.target.elts)}
+    else:
+        return None
+    return alpha(dc.key, mp), alpha(dc.value, mp), norm(g.iter)
+
+
+def _enum_param(fn: ast.FunctionDef) -> str:
+    ps = [a.arg for a in fn.args.args if a.arg != "self"]
+    return ps[0] if ps else "?"
+
+
+# ------------------------------------------------------------------------------------------------ flag <-> list of names
+def _closures(fn: ast.FunctionDef) -> List[ast.FunctionDef]:
+    return [d for d in ast.walk(fn) if isinstance(d, ast.FunctionDef) and d is not fn]
+
+
+def _is_zero(e: ast.expr, outer_defs: Dict[str, ast.expr]) -> bool:
+    if isinstance(e, ast.Constant) and e.value == 0 and not isinstance(e.value, bool):
+        return True
+    if isinstance(e, ast.Call) and len(e.args) == 1 and isinstance(e.args[0], ast.Constant) and e.args[0].value == 0:
+        return True     # enum(0)
+    if isinstance(e, ast.Name) and e.id in outer_defs:
+        return _is_zero(outer_defs[e.id], {k: v for k, v in outer_defs.items() if k != e.id})
+    return False
+
+
+def flag_list_dumper(repo: Repo, m: ModuleInfo, res: CheckResult) -> None:
+    """greedy cover of the value by members: a member is emitted iff it is contained in the (undiminished) value and is not
+    yet covered; then OR(emitted) == OR(members contained in value), which is what the loader rebuilds"""
+    ci = m.classes.get("FlagByListProvider")
+    if ci is None or "_make_dumper" not in ci.methods:
+        raise AnalysisError("anchor vanished: FlagByListProvider._make_dumper")
+    fn = ci.methods["_make_dumper"]
+    outer_defs = {n.targets[0].id: n.value for n in walk_no_nested(fn, include_root=False)
+                  if isinstance(n, ast.Assign) and isinstance(n.targets[0], ast.Name)}
+    cls = _closures(fn)
+    if len(cls) != 1:
+        raise AnalysisError("FlagByListProvider._make_dumper: expected one closure")
+    cl = cls[0]
+    qual = f"FlagByListProvider._make_dumper.{cl.name}"
+    V = cl.args.args[0].arg
+    loops = [n for n in walk_no_nested(cl, include_root=False) if isinstance(n, ast.For)]
+    emit_loops = [lp for lp in loops if any(isinstance(c, ast.Call) and isinstance(c.func, ast.Attribute) and c.func.attr == "append"
+                                            for c in ast.walk(lp))]
+    if len(emit_loops) != 1:
+        raise AnalysisError(f"{qual}: expected one emitting loop, found {len(emit_loops)}")
+    loop = emit_loops[0]
+    cset = {n.id for n in ast.walk(loop.target) if isinstance(n, ast.Name)}
+    modified_in_loop = set()
+    for n in ast.walk(loop):
+        if isinstance(n, (ast.Assign, ast.AugAssign)):
+            for t in (n.targets if isinstance(n, ast.Assign) else [n.target]):
+                if isinstance(t, ast.Name):
+                    modified_in_loop.add(t.id)
+    pre = {}
+    for n in cl.body:
+        if n is loop:
+            break
+        if isinstance(n, ast.Assign) and isinstance(n.targets[0], ast.Name):
+            pre[n.targets[0].id] = n.value
+
+    def v_like(e: ast.expr, depth=0) -> bool:
+        if isinstance(e, ast.Name):
+            if e.id == V:
+                return V not in modified_in_loop
+            if e.id in pre and e.id not in modified_in_loop and depth < 4:
+                return v_like(pre[e.id], depth + 1)
+            return False
+        if isinstance(e, ast.Attribute) and e.attr in ("value", "_value_"):
+            return v_like(e.value, depth)
+        if isinstance(e, ast.Call) and norm(e.func) == "int" and len(e.args) == 1:
+            return v_like(e.args[0], depth)
+        return False
+
+    def role(e: ast.expr) -> str:
+        if isinstance(e, ast.Attribute) and e.attr in ("value", "_value_"):
+            return role(e.value)
+        if isinstance(e, ast.Name):
+            if e.id in cset:
+                return "C"
+            if v_like(e):
+                return "V"
+            if e.id in pre and e.id in modified_in_loop:
+                if _is_zero(pre[e.id], outer_defs):
+                    return "ACC"
+                if v_like_init(pre[e.id]):
+                    return "REST"
+        if v_like(e):
+            return "V"
+        return "?"
+
+    def v_like_init(e: ast.expr) -> bool:
+        if isinstance(e, ast.Attribute) and e.attr in ("value", "_value_"):
+            return v_like_init(e.value)
+        return isinstance(e, ast.Name) and (e.id == V or (e.id in pre and v_like_init(pre[e.id])))
+
+    def classify(t: ast.expr) -> str:
+        if isinstance(t, ast.UnaryOp) and isinstance(t.op, ast.Not):
+            inner = classify(t.operand)
+            return {"SUB_ACC": "NEW_ACC", "NEW_ACC": "SUB_ACC"}.get(inner, "?")
+        if isinstance(t, ast.Compare) and len(t.ops) == 1:
+            l, r, op = t.left, t.comparators[0], t.ops[0]
+            if isinstance(op, (ast.In, ast.NotIn)) and role(l) == "C":
+                k = {"V": "SUB_V", "ACC": "SUB_ACC", "REST": "SUB_REST"}.get(role(r), "?")
+                if isinstance(op, ast.NotIn):
+                    k = {"SUB_ACC": "NEW_ACC"}.get(k, "?")
+                return k
+            if isinstance(op, (ast.Eq, ast.NotEq)):
+                for a, b in ((l, r), (r, l)):
+                    if isinstance(a, ast.BinOp) and isinstance(a.op, ast.BitAnd):
+                        roles = {role(a.left), role(a.right)}
+                        if role(b) == "C" and "C" in roles and len(roles) == 2:
+                            other = (roles - {"C"}).pop()
+                            k = {"V": "SUB_V", "ACC": "SUB_ACC", "REST": "SUB_REST"}.get(other, "?")
+                            if isinstance(op, ast.NotEq):
+                                k = {"SUB_ACC": "NEW_ACC"}.get(k, "?")
+                            return k
+                        if isinstance(b, ast.Constant) and b.value == 0 and roles == {"C", "REST"}:
+                            return "NEW_REST" if isinstance(op, ast.NotEq) else "?"
+        if isinstance(t, ast.BinOp) and isinstance(t.op, ast.BitAnd) and {role(t.left), role(t.right)} == {"C", "REST"}:
+            return "NEW_REST"
+        return "?"
+
+    n_sites = 0
+    for iff in [n for n in ast.walk(loop) if isinstance(n, ast.If)]:
+        if not any(isinstance(c, ast.Call) and isinstance(c.func, ast.Attribute) and c.func.attr == "append" for b in iff.body
+                   for c in ast.walk(b)):
+            continue
+        n_sites += 1
+        res.evaluated(f"flag-list:emit-condition:{norm(iff.test)}", True)
+        conj = iff.test.values if isinstance(iff.test, ast.BoolOp) and isinstance(iff.test.op, ast.And) else [iff.test]
+        kinds = [classify(c) for c in conj]
+        res.sample({"closure": qual, "emit_condition": norm(iff.test), "classified": kinds})
+        if "SUB_REST" in kinds and "SUB_V" not in kinds:
+            res.add(Finding("C18", "FLAG.cover-drops-overlap", m.rel, qual, norm(iff.test),
+                            "a member is emitted only if it is contained in the remainder left by the members already emitted: "
+                            "of two overlapping multi-bit members contained in the value the second is skipped and its other "
+                            "bits vanish from the dumped list (load(dump(v)) != v)", iff.lineno))
+            continue
+        if "SUB_ACC" in kinds:
+            res.add(Finding("C18", "FLAG.cover-inverted", m.rel, qual, norm(iff.test),
+                            "members are emitted only when already covered", iff.lineno))
+            continue
+        if "?" in kinds:
+            raise AnalysisError(f"{qual}: cannot classify emission condition `{norm(iff.test)}` ({kinds})")
+        if "SUB_V" not in kinds:
+            res.add(Finding("C18", "FLAG.emits-uncontained", m.rel, qual, norm(iff.test),
+                            "the emission condition does not require the member to be contained in the dumped value", iff.lineno))
+        # accumulator updates: only with the emitted member, only under the emission condition
+        for n in ast.walk(loop):
+            if isinstance(n, ast.AugAssign) and isinstance(n.target, ast.Name) and role(n.target) == "ACC":
+                under = any(n is x for b in iff.body for x in ast.walk(b))
+                if not under or not isinstance(n.op, ast.BitOr) or role(n.value) != "C":
+                    res.add(Finding("C18", "FLAG.cover-accumulator", m.rel, qual, norm(n),
+                                    "the set of covered bits must grow exactly by the emitted members", n.lineno))
+    if n_sites == 0:
+        # unconditional emission of every case
+        res.add(Finding("C18", "FLAG.emits-uncontained", m.rel, qual, "unconditional append",
+                        "members are emitted without testing that they are contained in the value", loop.lineno))
+    res.count("FLAG.list-dumper-emission-sites", n_sites, 1)
+
+
+def flag_list_loader(repo: Repo, m: ModuleInfo, res: CheckResult) -> None:
+    ci = m.classes.get("FlagByListProvider")
+    if ci is None or "_make_loader" not in ci.methods:
+        raise AnalysisError("anchor vanished: FlagByListProvider._make_loader")
+    fn = ci.methods["_make_loader"]
+    outer_defs = {n.targets[0].id: n.value for n in walk_no_nested(fn, include_root=False)
+                  if isinstance(n, ast.Assign) and isinstance(n.targets[0], ast.Name)}
+    cls = _closures(fn)
+    if len(cls) != 1:
+        raise AnalysisError("FlagByListProvider._make_loader: expected one closure")
+    cl = cls[0]
+    qual = f"FlagByListProvider._make_loader.{cl.name}"
+    rets = [r for r in walk_no_nested(cl) if isinstance(r, ast.Return) and r.value is not None]
+    if len(rets) != 1 or not isinstance(rets[0].value, ast.Name):
+        raise AnalysisError(f"{qual}: expected a single `return <name>`")
+    R = rets[0].value.id
+    res.evaluated("flag-list:loader-accumulation", True)
+    inits = [n for n in walk_no_nested(cl, include_root=False) if isinstance(n, ast.Assign) and norm(n.targets[0]) == R]
+    if len(inits) != 1 or not _is_zero(inits[0].value, outer_defs):
+        res.add(Finding("C18", "FLAG.loader-accumulation", m.rel, qual, "; ".join(norm(i) for i in inits),
+                        "the loaded flag must start from the zero member", cl.lineno))
+    loops = [n for n in walk_no_nested(cl, include_root=False) if isinstance(n, ast.For)
+             and any(isinstance(x, ast.AugAssign) and norm(x.target) == R for x in ast.walk(n))]
+    if len(loops) != 1:
+        res.add(Finding("C18", "FLAG.loader-accumulation", m.rel, qual, f"{len(loops)} accumulating loops",
+                        "every listed name must be OR-ed into the result in one loop over the data", cl.lineno))
+        return
+    loop = loops[0]
+    item = loop.target.id if isinstance(loop.target, ast.Name) else None
+    for x in ast.walk(loop):
+        if isinstance(x, (ast.Assign, ast.AugAssign)):
+            tg = x.targets[0] if isinstance(x, ast.Assign) else x.target
+            if norm(tg) != R:
+                continue
+            ok = isinstance(x, ast.AugAssign) and isinstance(x.op, ast.BitOr) and isinstance(x.value, ast.Subscript) \
+                and item is not None and norm(x.value.slice) == item
+            if isinstance(x, ast.Assign) and isinstance(x.value, ast.BinOp) and isinstance(x.value.op, ast.BitOr):
+                sides = [x.value.left, x.value.right]
+                ok = any(norm(sd) == R for sd in sides) and any(isinstance(sd, ast.Subscript) and norm(sd.slice) == item for sd in sides)
+            if not ok:
+                res.add(Finding("C18", "FLAG.loader-accumulation", m.rel, qual, norm(x),
+                                "each listed name must contribute `result |= mapping[name]` (anything else loses or invents "
+                                "bits)", x.lineno))
+    # iteration covers the whole datum
+    it = loop.iter
+    res.evaluated("flag-list:loader-iterates-all", True)
+    if isinstance(it, ast.Subscript) or (isinstance(it, ast.Call) and norm(it.func) in ("islice", "itertools.islice", "set", "frozenset")
+                                        and False):
+        res.add(Finding("C18", "FLAG.loader-accumulation", m.rel, qual, norm(it), "only a part of the listed names is processed",
+                        loop.lineno))
+    # unknown names are rejected: a membership test on the item guards the accumulation and a raise follows the loop
+    res.evaluated("flag-list:loader-rejects-unknown", True)
+    tests = [n for n in ast.walk(loop) if isinstance(n, ast.If) and item is not None and any(
+        isinstance(c, ast.Compare) and isinstance(c.ops[0], (ast.In, ast.NotIn)) and norm(c.left) == item for c in ast.walk(n.test))]
+    after = cl.body[cl.body.index(loop) + 1:] if loop in cl.body else []
+    raises_after = any(isinstance(r, ast.Raise) for st in after for r in ast.walk(st))
+    raises_in = any(isinstance(r, ast.Raise) for t in tests for r in ast.walk(t))
+    if not tests or not (raises_after or raises_in):
+        res.add(Finding("C18", "FLAG.loader-unknown-names", m.rel, qual, "no rejection of unknown names",
+                        "names that are not in the table must be rejected with LoadError", loop.lineno))
